@@ -144,6 +144,23 @@ def survival_n2(cfg, t):
     return math.exp(-acc)
 
 
+def quantile_coal(pg, cfg):
+    """the Coalescent of a quantile-family configuration; with cfg['grown'] the SAME demography, but the object was first used
+    with only its first epochs (a quantile was taken on it) and the later size changes were added afterwards: a Coalescent built
+    on it then is the Coalescent of the whole history"""
+    if not cfg.get('grown'):
+        return conv.make_coalescent(pg, cfg)
+    eps = cfg['epochs']
+    (name, _), = cfg['n'].items()
+    j = max(1, len(eps) // 2)
+    with C.LogCapture():
+        d = pg.Demography(pop_sizes={name: {e['start']: e['sizes'][name] for e in eps[:j]}})
+        pg.Coalescent(n={name: 2}, demography=d, parallelize=False, pbar=False).tree_height.quantile(0.5)
+        for e in eps[j:]:
+            d.add_event(pg.PopSizeChange(pop=name, time=e['start'], size=e['sizes'][name]))
+        return pg.Coalescent(n={name: 2}, demography=d, parallelize=False, pbar=False)
+
+
 def quantile_family(ctx, i):
     """many short epochs (several boundaries inside one doubling / bisection step of the quantile search), two lineages in one
     deme: |F(quantile(q)) - q| <= 1e-5 with F the closed form AND the real cdf"""
@@ -156,7 +173,10 @@ def quantile_family(ctx, i):
         eps.append(dict(start=t, sizes={name: float(2.0 ** rng.randint(-4, 5))}, mig={}))
         t += rng.choice([0.0625, 0.125, 0.1875, 0.25, 0.4375, 0.75, 1.5])
     cfg = dict(n={name: 2}, model=('kingman',), epochs=eps, loci=1)
-    coal = conv.make_coalescent(pg, cfg)
+    if k % 2 == 0:
+        cfg['grown'] = True
+        ctx.count('quantile-family:demography-grown-after-use')
+    coal = quantile_coal(pg, cfg)
     th = coal.tree_height
     ctx.case(dict(cfg=cfg, family='quantile'), ('q', gen.cfg_key(cfg)))
     ctx.count(f'quantile-family-epochs{k}')
@@ -235,7 +255,7 @@ def replay(ctx, payload):
     pg = C.import_phasegen()
     if 'real_cdf_at_returned' in payload:
         cfg = conv.cfg_from_json(payload['cfg'])
-        th = conv.make_coalescent(pg, cfg).tree_height
+        th = quantile_coal(pg, cfg).tree_height
         q = float(payload['q'])
         tq = float(th.quantile(q))
         Fc, Fr = 1.0 - survival_n2(cfg, tq), float(th.cdf(tq))
